@@ -22,6 +22,43 @@ def jInts (l : List Int) : Json := Json.arr (l.map (fun n => Json.num (JsonNumbe
 def jInt (n : Int) : Json := Json.num (JsonNumber.fromInt n)
 def jNat (n : Nat) : Json := Json.num (JsonNumber.fromNat n)
 
+open Catii.Kern in
+def jErr : Kern.Err → Json
+  | .oobRead i n => Json.mkObj [("err", "oobRead"), ("i", jNat i), ("len", jNat n)]
+  | .oobWrite i n => Json.mkObj [("err", "oobWrite"), ("i", jNat i), ("len", jNat n)]
+  | .value m => Json.mkObj [("err", "value"), ("msg", Json.str m)]
+
+def jKern : Kern.M (Array Nat) → Json
+  | .ok a => Json.mkObj [("ok", jNats a.toList)]
+  | .error e => jErr e
+def jKernO : Kern.M (Option (Array Nat)) → Json
+  | .ok (some a) => Json.mkObj [("ok", jNats a.toList)]
+  | .ok none => Json.mkObj [("ok", Json.null)]
+  | .error e => jErr e
+
+def optArr (j : Json) (k : String) : R (Option (Array Nat)) := do
+  match j.getObjVal? k with
+  | .ok v => if v.isNull then pure none else pure (some (← natList v).toArray)
+  | .error _ => pure none
+
+def handleKern (j : Json) : R Json := do
+  let fn ← fStr j "fn"
+  match fn with
+  | "union_many" =>
+      let arrs ← (← arr (← fld j "arrays")).toList.mapM (fun a => do pure (← natList a).toArray)
+      pure (jKern (Kern.unionManyK arrs))
+  | _ =>
+    let l ← optArr j "l"; let r ← optArr j "r"
+    let guardOr := match j.getObjVal? "guard_or" with | .ok (Json.bool b) => b | _ => true
+    match fn, l, r with
+    | "inter", some L, some R => pure (jKern (Kern.interK L R guardOr))
+    | "union", some L, some R => pure (jKern (Kern.unionK L R))
+    | "diff", some L, some R => pure (jKern (Kern.diffK L R))
+    | "intersection", l, r => pure (jKernO (Kern.intersectionW l r))
+    | "union_w", l, r => pure (jKernO (Kern.unionW l r))
+    | "difference", l, r => pure (jKernO (Kern.differenceW l r))
+    | _, _, _ => throw s!"bad kern request {fn}"
+
 def handle (j : Json) : R Json := do
   let op ← fStr j "op"
   match op with
@@ -31,6 +68,7 @@ def handle (j : Json) : R Json := do
   | "indx_tables" =>
       let s ← fNat j "size"
       pure (Json.mkObj [("fmt", jNat (Gen.formatWidth s)), ("dtype", Json.str (Gen.wordDtype s).name)])
+  | "kern" => handleKern j
   | _ => throw s!"unknown op {op}"
 
 partial def loop (h : IO.FS.Stream) (out : IO.FS.Stream) : IO Unit := do
